@@ -26,6 +26,23 @@ def code_objects(co, path='<module>'):
             yield from code_objects(c, path + '.' + c.co_name)
 
 
+def line_check(co, path, n_lines, problems):
+    # ---- line table (only for code that belongs to the compiled file itself: embedded helper modules carry their own file name)
+    if n_lines is not None and co.co_filename == TOP_FILE[0] and '%v_codegen_' not in path:   # code of an inlined imported Erg module refers to ITS source
+        try:
+            if hasattr(co, 'co_lines'):
+                lines = [ln for (_, _, ln) in co.co_lines() if ln is not None]
+            else:
+                lines = [ln for (_, ln) in dis.findlinestarts(co)]
+        except Exception as ex:
+            problems.append("%s: line table cannot be decoded: %r" % (path, ex))
+            lines = []
+        for ln in lines:
+            if not (1 <= ln <= n_lines):
+                problems.append("%s: line table maps code to line %d of a %d-line file" % (path, ln, n_lines))
+                break
+
+
 def check(co, path, n_lines, problems):
     try:
         ins = list(dis.get_instructions(co))
@@ -66,7 +83,9 @@ def check(co, path, n_lines, problems):
             lim = (nlocals + ncell) if V >= (3, 11) else ncell
             if not (0 <= arg < lim):
                 problems.append("%s: offset %d %s cell/free index %d out of range (%d)" % (path, i.offset, i.opname, arg, lim))
-    # ---- stack depth over the CFG
+    # ---- stack depth over the CFG (3.7's dis.stack_effect cannot tell the two outcomes of a branch apart: depth is not checked there)
+    if V < (3, 8):
+        return line_check(co, path, n_lines, problems)
     NOFALL = {'RETURN_VALUE', 'RAISE_VARARGS', 'RERAISE', 'JUMP_FORWARD', 'JUMP_ABSOLUTE', 'JUMP_BACKWARD', 'JUMP_BACKWARD_NO_INTERRUPT', 'RETURN_CONST'}
     depth_at = {}
     work = [(0, 0)]
@@ -141,20 +160,7 @@ def check(co, path, n_lines, problems):
             d = nd
     if maxd > co.co_stacksize:
         problems.append("%s: co_stacksize %d < reachable operand-stack depth %d" % (path, co.co_stacksize, maxd))
-    # ---- line table (only for code that belongs to the compiled file itself: embedded helper modules carry their own file name)
-    if n_lines is not None and co.co_filename == TOP_FILE[0] and '%v_codegen_' not in path:   # code of an inlined imported Erg module refers to ITS source
-        try:
-            if hasattr(co, 'co_lines'):
-                lines = [ln for (_, _, ln) in co.co_lines() if ln is not None]
-            else:
-                lines = [ln for (_, ln) in dis.findlinestarts(co)]
-        except Exception as ex:
-            problems.append("%s: line table cannot be decoded: %r" % (path, ex))
-            lines = []
-        for ln in lines:
-            if not (1 <= ln <= n_lines):
-                problems.append("%s: line table maps code to line %d of a %d-line file" % (path, ln, n_lines))
-                break
+    line_check(co, path, n_lines, problems)
     return maxd
 
 
